@@ -1007,7 +1007,7 @@ func c05Relocate(c *core.Ctx) {
 		g, w := core.MustPassBefore(fn, st, isCallNamed("Contains"))
 		// a single-key batch needs no test
 		if !g {
-			g, w = guardedByAny(c, fn, st, "F:(const(1) < len(fld(batchKeys.keys,recv)))", "T:(len(fld(batchKeys.keys,recv)) < const(2))", "F:(*< len(fld(batchKeys.keys,recv)))")
+			g, w = guardedByAny(c, fn, st, "F:(const(1) < len(fld(batchKeys.keys,recv)))", "T:(len(fld(batchKeys.keys,recv)) < const(2))", "F:(*< len(fld(batchKeys.keys,recv)))", "F:(*< len(slice(fld(batchKeys.keys,recv),*")
 		}
 		a.check(g, fname(fn)+" keeps the batch only after the containment test", st, "", a.w(w))
 	}
